@@ -46,7 +46,8 @@ ValueOK(e, i, D) ==
 
 Class(e, i) ==
   LET ref == RefV(e, i)  o == ObsV(e.res[i])  impl == ImplV(e, i, Devs \ {"YamlIntInMixedEnum"}) IN
-  IF ref = Un THEN "un"
+  IF Judge = "build" THEN "un"          \* C01 judges only that the program compiles
+  ELSE IF ref = Un THEN "un"
   ELSE IF o = ref /\ Judge = "value" /\ ref = Acc /\ ~ValueOK(e, i, {}) THEN
        (IF ValueOK(e, i, Devs) THEN "known" ELSE "violation")
   ELSE IF o = ref THEN (IF impl = o THEN "ok" ELSE "drift")
@@ -133,7 +134,7 @@ SizedTypeClass(e) ==
      ELSE IF g = pred(Devs) /\ pred({}) # g THEN "known"
      ELSE "violation"
 IsSized(e) == "opts" \in DOMAIN e.unit /\ "minSizedInts" \in DOMAIN e.unit.opts /\ e.unit.opts.minSizedInts
-              /\ e.unit.prop = "C15"
+              /\ e.unit.prop = "C15" /\ Judge # "build"
 TypeReport(n, e, c) ==
   PrintT("REPORT " \o ToJson([l |-> n, i |-> 0, class |-> c, devs |-> <<"Float64Bounds">>, kind |-> "gotype",
                              ref |-> "narrowest type holding the admitted interval", obs |-> e.gotype, impl |-> "-"]))
@@ -153,10 +154,12 @@ ConstReport(n, e, c) ==
 (* ---- programs that do not compile (C09: "the default literal always has the Go type of the field") ---- *)
 \* e.built = FALSE: the real generator succeeded but the Go compiler rejected the emitted package.  The
 \* unit's field nobuild (computed by the MC module) lists the deviations that predict exactly that.
-NotBuilt(e) == "built" \in DOMAIN e /\ ~e.built
-BuildClass(e) == IF \E i \in DOMAIN e.unit.nobuild : e.unit.nobuild[i] \in Devs THEN "known" ELSE "violation"
+\* e.fmtok = FALSE: the generator could not format the file, or gofmt would change it
+NotBuilt(e) == ("built" \in DOMAIN e /\ ~e.built) \/ ("fmtok" \in DOMAIN e /\ ~e.fmtok)
+NoBuild(e) == IF "nobuild" \in DOMAIN e.unit THEN e.unit.nobuild ELSE <<>>
+BuildClass(e) == IF \E i \in DOMAIN NoBuild(e) : NoBuild(e)[i] \in Devs THEN "known" ELSE "violation"
 BuildReport(n, e, c) ==
-  PrintT("REPORT " \o ToJson([l |-> n, i |-> 0, class |-> c, devs |-> e.unit.nobuild, kind |-> "build",
+  PrintT("REPORT " \o ToJson([l |-> n, i |-> 0, class |-> c, devs |-> NoBuild(e), kind |-> "build",
                              ref |-> "emitted package compiles", obs |-> "does not compile", impl |-> "-"]))
 
 Count(cls, c) == Cardinality({i \in DOMAIN cls : cls[i] = c})
